@@ -49,6 +49,12 @@ ARRAY_TOL = {"": 2e-4, "sgd": 2e-4, "sgd_momentum": 2e-4, "adam": 1e-2, "adamw":
 # Probe learning rates: the probe is normalised to the data (max |probe| ~ 5e2) and its gradients are ~1e-6, so that the
 # probe only moves measurably (1-5 % over 4 iterations; with 1e-3 it moved by 1e-9 and probe-side state was invisible)
 # with SGD rates ~1e4 and Adam rates ~1.
+# With an object low-pass constraint the object deviation after a FILE round trip is erratic on the unchanged tree
+# (2e-7 ... 2.8e-4 of the maximum over seeds / thread counts, while loss and probe stay at 1.5e-7): the filter acts on the
+# whole padded array, including pixels the data do not constrain, where round-off is not damped by the updates. The
+# cached-filter-envelope change these schedules exist for moves the object by 0.48.
+LP_OBJ_TOL = 6e-3
+
 OPTS = {
     "sgd": {"object": {"type": "sgd", "lr": 0.5}, "probe": {"type": "sgd", "lr": 2e4}},
     "sgd_momentum": {"object": {"type": "sgd", "lr": 0.3, "momentum": 0.8}, "probe": {"type": "sgd", "lr": 1e4, "momentum": 0.5}},
@@ -183,7 +189,10 @@ def compare(t, got, want, what, cls, case, exact_meta=True):
     for name in ("obj", "probe", "positions", "descan"):
         e = rel(got[name], want[name]) if name != "descan" else (float(np.abs(got[name] - want[name]).max()) if got[name].shape == want[name].shape else np.inf)
         t.stat(f"{what}_{name}_rel_err_{cls.get('optimizer', '')}", e if np.isfinite(e) else 1e9)
-        if not e <= ARRAY_TOL.get(cls.get("optimizer", ""), 10 * TOL):
+        atol = ARRAY_TOL.get(cls.get("optimizer", ""), 10 * TOL)
+        if name == "obj" and str(cls.get("constraint_schedule", "")).startswith("lp_"):
+            atol = max(atol, LP_OBJ_TOL)
+        if not e <= atol:
             msgs.append((name, f"{name} differs by {e:.3g} (relative to its maximum)"))
     if got["constraints"] != want["constraints"]:
         msgs.append(("constraints", f"constraints differ: {got['constraints'][:200]} vs {want['constraints'][:200]}"))
